@@ -2,7 +2,71 @@
 //! here is compiled into a normal build.
 pub mod sync;
 
+pub use crate::descriptor::DescriptorManager;
+
+use crate::function::InnerFunctionManager;
+use crate::operator::{InfixOpManager, PostfixOpManager, PrefixOpManager};
+use crate::token::{Span, Token};
+use crate::tokenizer::Tokenizer;
+
+/// (kind, text, start, end) of every token of `input`, or the first tokenizer error.
+pub fn tokenize(input: &str) -> crate::Result<Vec<(&'static str, String, usize, usize)>> {
+    crate::init::init();
+    let mut tokenizer = Tokenizer::new(input);
+    let mut out = Vec::new();
+    loop {
+        let item = match tokenizer.next()? {
+            Token::EOF => break,
+            Token::Operator(s, Span(a, b)) => ("operator", s.to_string(), a, b),
+            Token::Delim(ty, Span(a, b)) => ("delim", ty.string(), a, b),
+            Token::Number(d, Span(a, b)) => ("number", d.to_string(), a, b),
+            Token::Comma(s, Span(a, b)) => ("comma", s.to_string(), a, b),
+            Token::Bool(v, Span(a, b)) => ("bool", v.to_string(), a, b),
+            Token::String(s, Span(a, b)) => ("string", s.to_string(), a, b),
+            Token::Reference(s, Span(a, b)) => ("reference", s.to_string(), a, b),
+            Token::Function(s, Span(a, b)) => ("function", s.to_string(), a, b),
+            Token::Semicolon(s, Span(a, b)) => ("semicolon", s.to_string(), a, b),
+        };
+        out.push(item);
+    }
+    Ok(out)
+}
+
 /// Called between the built-in registration stages of `init()`.
 pub fn init_stage(stage: u32) {
     sync::emit(sync::Event::InitStage { stage })
+}
+
+/// Contents of the four registries, sorted by name. The last field of every
+/// entry is the address of the handler (its identity).
+#[derive(Clone, Debug, PartialEq, Eq, Hash)]
+pub struct Snapshot {
+    pub prefix: Vec<(String, usize)>,
+    /// name, precedence, is_setter, is_left_assoc, handler
+    pub infix: Vec<(String, i32, bool, bool, usize)>,
+    pub postfix: Vec<(String, usize)>,
+    pub functions: Vec<(String, usize)>,
+}
+
+pub fn snapshot() -> Snapshot {
+    Snapshot {
+        prefix: PrefixOpManager::new().verif_entries(),
+        infix: InfixOpManager::new().verif_entries(),
+        postfix: PostfixOpManager::new().verif_entries(),
+        functions: InnerFunctionManager::new().verif_entries(),
+    }
+}
+
+/// Put the four registries back into the just-initialised state (the once-flag
+/// of `init()` is not touched).
+pub fn reset_registries() {
+    crate::init::init();
+    PrefixOpManager::new().verif_clear();
+    InfixOpManager::new().verif_clear();
+    PostfixOpManager::new().verif_clear();
+    InnerFunctionManager::new().verif_clear();
+    PrefixOpManager::new().init();
+    InfixOpManager::new().init();
+    PostfixOpManager::new().init();
+    InnerFunctionManager::new().init();
 }
